@@ -251,6 +251,57 @@ def check(g, case):
                 compare_infoset(t, el, (), diffs)
                 if diffs:
                     bad("export_differs", diffs[0]["expected"], diffs[0]["observed"], exporter="metapype_io", field=diffs[0]["field"], arguments=label)
+    # ---------------- export, edit in place, export again: the second document is that of the tree as it is now -----------
+    if len(case.get("slots", [])) <= 1:
+        for what in ("prefix", "name", "content", "attributes"):       # one kind of field at a time
+            core.reset_store()
+            t = gtree.build(g)
+            try:
+                metapype_io.to_xml(t)
+            except Exception:  # noqa  (reported above)
+                pass
+            for n_ in gtree.preorder(t):
+                if what == "prefix":
+                    bound = [pf for pf in n_.nsmap if pf != n_.prefix]
+                    n_.prefix = bound[0] if (n_.prefix is not None and bound) else (None if n_.prefix is not None else (bound[0] if bound else None))
+                elif what == "name":
+                    n_.name = n_.name + "2"
+                elif what == "content":
+                    n_.content = (n_.content or "") + " edited"
+                else:
+                    n_.add_attribute("added", "later")
+            try:
+                xml = metapype_io.to_xml(t)
+                el = xmlinfo.parse(xml)
+                diffs = []
+                compare_infoset(t, el, (), diffs)
+                if diffs:
+                    bad("export_differs", diffs[0]["expected"], diffs[0]["observed"], exporter="metapype_io", field=diffs[0]["field"],
+                        when="second export, after an in-place edit of every node's " + what)
+            except Exception as e:  # noqa
+                bad("not_well_formed", "well-formed XML on the second export", repr(e)[:300], exporter="metapype_io", parser="expat",
+                    when="second export, after an in-place edit of every node's " + what)
+    # ---------------- distinct nodes that carry one and the same node id (two loads of one JSON text give that) -------------
+    if len(case.get("slots", [])) <= 1 and g["children"]:
+        gs = gtree.clone(g)
+        for _, n_ in gtree.walk(gs):
+            n_["id"] = "dup"
+        for exporter, fn in (("metapype_io", metapype_io.to_xml), ("export", export.to_xml)):
+            gg = gs if exporter == "metapype_io" else eml_variant(gs)
+            if exporter == "export" and not eml_ok(gg):
+                continue
+            core.reset_store()
+            t = gtree.build(gg)
+            try:
+                el = xmlinfo.parse(fn(t))
+            except Exception as e:  # noqa
+                bad("not_well_formed", "well-formed XML", repr(e)[:300], exporter=exporter, parser="expat", when="all nodes share one id")
+                continue
+            def count(e_):
+                return 1 + sum(count(c_) for c_ in e_.children)
+            if count(el) != len(gtree.preorder(t)):
+                bad("export_differs", len(gtree.preorder(t)), count(el), exporter=exporter, field="number of elements",
+                    when="all nodes share one id")
     # ---------------- a subtree is a tree: export of an inner node / of the copy of an inner node ----------------
     if g["children"] and len(case.get("slots", [])) <= 1:
         for how in ("inner-node", "copy-of-inner-node"):
